@@ -7,6 +7,7 @@ import (
 	"go/token"
 	"go/types"
 	"os"
+	"regexp"
 	"strings"
 
 	"golang.org/x/tools/go/packages"
@@ -202,6 +203,14 @@ func (w *World) findFunc(dir, name string) *ssa.Function {
 	return fn
 }
 
+// lastPkgElem reduces every import path in a function name to its last element:
+// "(github.com/quagmt/udecimal.Decimal).Cmp" -> "(udecimal.Decimal).Cmp"
+func lastPkgElem(name string) string {
+	return pkgPathRe.ReplaceAllString(name, "")
+}
+
+var pkgPathRe = regexp.MustCompile(`[A-Za-z0-9_.\-]+/`)
+
 func (w *World) contractOfFunc(f *ssa.Function) (*FuncContract, *PkgContracts) {
 	root := f
 	for root.Parent() != nil {
@@ -234,7 +243,9 @@ func (w *World) lookupContract(g *Gen, c *ssa.CallCommon, name string) (*FuncCon
 		f = v.Fn.(*ssa.Function)
 	}
 	if f != nil && !c.IsInvoke() {
-		if fc, pc := w.contractOfFunc(f); fc != nil {
+		// a contract of the callee's own package is used unless it was verified in the other integer mode; in
+		// that case the caller's file must restate it as an `extern` (listed as an assumption there, proved there)
+		if fc, pc := w.contractOfFunc(f); fc != nil && (fc.Mode == "" && g.mode == "int" || fc.Mode == g.mode) {
 			var ps []cparam
 			for _, p := range f.Params {
 				ps = append(ps, cparam{p.Name(), p.Type()})
@@ -256,6 +267,16 @@ func (w *World) lookupContract(g *Gen, c *ssa.CallCommon, name string) (*FuncCon
 		}
 		if i := strings.Index(name, "["); i > 0 {
 			if fc, ok := pc.Externs[name[:i]]; ok {
+				return fc
+			}
+		}
+		// package paths may be abbreviated in the contract: "(udecimal.Decimal).Cmp" for the full import path
+		base := name
+		if i := strings.Index(base, "["); i > 0 {
+			base = base[:i]
+		}
+		for k, fc := range pc.Externs {
+			if lastPkgElem(k) == lastPkgElem(base) {
 				return fc
 			}
 		}
